@@ -1,6 +1,7 @@
 """C06 -- crop keeps exactly the annotation inside the window, per mode."""
 import itertools
-from .. import core, gen
+import sys
+from .. import core, gen, obshist, tierops
 
 ID = "C06"
 MODULE = "Check.C06Check"
@@ -71,6 +72,11 @@ def generate(tier, rng):
             b = a
         cases.append({"op": "tgcrop", "tiers": tiers, "a": a, "b": b, "mode": rng.choice(list(MODES)),
                       "rebase": rng.random() < 0.5, "scale": gen.pick_scale(rng)})
+    # the same selections on a grid of binary64 neighbours (0.3 and 0.1+0.2 are different times): crop compares exactly
+    elig = [c for c in cases if c["op"] in ("icrop", "pcrop") and not c["rebase"]]
+    for c in rng.sample(elig, min(len(elig), 600 if tier == "quick" else 20000)):
+        cases.append(dict(c, scale=["near", 1]))
+
     return cases
 
 
@@ -185,3 +191,14 @@ def shrinks(case):
 
 def finding_match(case, r, kind, why, findings):
     return None
+
+
+def _obs_term(kind, state, st, res):
+    a = st["args"]
+    if kind == "I":
+        return "CropI %s %s %s %s %s %s" % (core.citier(state), core.cz(a["a"]), core.cz(a["b"]), tierops.CROP[a["mode"]], core.cbool(a["rebase"]),
+                                           obshist.res_tier(res, core.citier))
+    return "CropP %s %s %s %s %s" % (core.cptier(state), core.cz(a["a"]), core.cz(a["b"]), core.cbool(a["rebase"]), obshist.res_tier(res, core.cptier))
+
+
+obshist.install(sys.modules[__name__], ["crop"], ["crop"], _obs_term)
